@@ -41,9 +41,6 @@ ASSUMPTIONS = ['clauses with no theorem, checked by the direct oracle only: the 
 EXHAUSTIVE = {'quick': True, 'thorough': True}
 CASE_TIMEOUT = 30
 
-SIG_PANDAS = 'C12|PandasIndexFeaturesMixin.reindex|default-fill-not-dtype-default'
-SIG_PANDAS_STATUS = 'C12|PandasIndexFeaturesMixin.reindex|status/iterations-keyword-ignored-or-rejected'
-SIG_TUPLE = 'C12|reindex(ndarray old span, tuple label in new span)|broadcast-aliases-a-period-or-KeyError'
 
 
 # --------------------------------------------------------------------------- values
@@ -377,7 +374,7 @@ def impl(case):
     if case['cls'] in PANDAS:
         obs['series_calls'] = []
         obs['assign_casts'] = []
-        names = list(c.names)
+        names = [nm for nm in c.names if _var_method(case, nm) is not None]          # (since fix 2658d81 only these go through pandas)
         for i, call in enumerate(calls):
             fv = call[2]
             fvj = None if fv is None else enc_cell(fv)
@@ -635,6 +632,19 @@ def _expected_fill(dt, pv, given):
     return 'skip'
 
 
+def _var_method(case, name):
+    """The pandas fill method the mixin applies to a variable (None: the core's result stands), as its `methods` dictionary decides."""
+    pd_args = case.get('pandas', {})
+    if name in ('status', 'iterations'):
+        return None                   # not in `names`: never sent through pandas
+    as_list = lambda x: [] if x is None else ([x] if isinstance(x, str) else list(x))
+    method = pd_args.get('method')
+    for key, m in (('backfill_', 'bfill'), ('bfill_', 'bfill'), ('pad_', 'ffill'), ('ffill_', 'ffill'), ('nearest_', 'nearest')):
+        if name in as_list(pd_args.get(key)):
+            method = m
+    return method
+
+
 def _method_fill(case, name, dt, p, old_labs, oldd):
     """Expected cell of a NEW period p for a float variable under ffill / bfill (no limit, no tolerance) when the old labels are
     increasing integers; None where this direct reference does not apply."""
@@ -643,12 +653,7 @@ def _method_fill(case, name, dt, p, old_labs, oldd):
         return None
     if not all(l[0] == 'n' for l in old_labs) or [l[1] for l in old_labs] != sorted(set(l[1] for l in old_labs)):
         return None
-    as_list = lambda x: [] if x is None else ([x] if isinstance(x, str) else list(x))
-    method = pd_args.get('method')
-    for key, m in (('backfill_', 'bfill'), ('bfill_', 'bfill'), ('pad_', 'ffill'), ('ffill_', 'ffill'), ('nearest_', 'nearest')):
-        if name in as_list(pd_args.get(key)):
-            method = m
-    method = {'pad': 'ffill', 'backfill': 'bfill'}.get(method, method)
+    method = {'pad': 'ffill', 'backfill': 'bfill'}.get(_var_method(case, name), _var_method(case, name))
     if method == 'ffill':
         prev = [i for i, l in enumerate(old_labs) if l[1] < p[1]]
         return oldd[prev[-1]] if prev else ['f', 'nan']
@@ -670,14 +675,9 @@ def oracle(case, obs):
     fails = []
 
     new_spec = case['old'] if case.get('same_span_object') else case['new']
-    # kept finding: `period in span` and the fallback lookup broadcast a tuple label against a NumPy-array span
-    tuple_on_arr = case['old']['type'] == 'nparr' and any(j[0] == 'p' for j in lc.span_labels(new_spec))
 
     def bad(site, cls, what):
-        if tuple_on_arr and cls in ('wrong-fill', 'unexpected-KeyError', 'unexpected-IndexError', 'unexpected-ValueError'):
-            fails.append({'sig': SIG_TUPLE, 'what': what})
-        else:
-            fails.append({'sig': 'C12|%s|%s' % (site, cls), 'what': what})
+        fails.append({'sig': 'C12|%s|%s' % (site, cls), 'what': what})
     if obs.get('timeout'):
         bad('any', 'timeout', 'no answer within the watchdog limit')
         return fails
@@ -695,11 +695,6 @@ def oracle(case, obs):
     fills = dict((n, v) for n, v in case.get('fills', []))
     strict = case.get('strict') if case.get('strict') is not None else case.get('obj_strict', False)
     unknown = [n for n in fills if n not in names]
-    if cls in PANDAS and strict and not unknown and any(n in ('status', 'iterations') for n in fills):
-        # the mixin tests the keywords against `names`, which lacks status / iterations
-        if obs['out'] == ['raise', 'KeyError']:
-            fails.append({'sig': SIG_PANDAS_STATUS, 'what': 'status / iterations given as fill keywords are rejected under strict although they are variables of the model'})
-            return fails
     site = 'VectorContainer.reindex' if cls == 'VC' else ('PandasIndexFeaturesMixin.reindex' if cls in PANDAS else 'BaseModel.reindex')
     if not obs['orig_unchanged']:
         bad(site, 'original-changed', 'the original object changed during reindex')
@@ -752,11 +747,7 @@ def oracle(case, obs):
                 if not _same_cell(newd[i], exp):
                     bad(site, 'overlap-value-lost', '%s[%d] (period present in both spans) is %s, was %s' % (name, i, newd[i], exp))
             elif fill != 'skip' and not _same_cell(newd[i], fill):
-                if cls in PANDAS and name in ('status', 'iterations') and name in fills:
-                    fails.append({'sig': SIG_PANDAS_STATUS, 'what': '%s keyword ignored: new period holds %s, expected %s' % (name, newd[i], fill)})
-                elif cls in PANDAS and name not in fills and case.get('fill_value') is None and not case.get('pandas'):
-                    fails.append({'sig': SIG_PANDAS, 'what': '%s (%s) new period filled with %s, expected %s' % (name, dt, newd[i], fill)})
-                elif cls in PANDAS and case.get('pandas'):
+                if cls in PANDAS and _var_method(case, name) is not None:
                     # a fill method was requested (outside the property's statement, which speaks of fill VALUES): for ffill / bfill
                     # without limit / tolerance on an increasing integer old span the propagated value is checked directly
                     exp = _method_fill(case, name, dt, p, old_labs, oldd)
